@@ -196,7 +196,7 @@ def gen(rs: int, tier: str, index: int) -> dict:
     for ti in range(r.randint(1, 2)):
         sig = gen_signature(r, ti)
         name = f"c08_{ti}"
-        tasks.append({"name": name, "func": name, "source": source_for(name, sig), "sig": sig})
+        tasks.append({"name": name, "func": name, "source": source_for(name, sig), "sig": sig, "register_late": r.random() < 0.4})
     tasks.append({"name": "ghost", "client_only": True, "ctx": False, "sync": False, "deps": [], "root": []})
     s["tasks"] = tasks
     for m in s["messages"]:
@@ -392,7 +392,8 @@ def oracle(script: dict, run: Any) -> List[Violation]:
 def probes(script: dict, run: Any) -> Dict[str, int]:
     h = Hist(run)
     res = {"conversion_happened": 0, "unconvertible_left_unchanged": 0, "unannotated_before_annotated": 0, "redelivered": 0,
-           "model_or_dataclass_arg": 0, "validate_off": int(not script["config"].get("validate_params", True)), "keyword_only_param": 0,
+           "model_or_dataclass_arg": 0, "validate_off": int(not script["config"].get("validate_params", True)),
+           "validate_off_and_task_registered_after_receiver": int(not script["config"].get("validate_params", True) and any(t.get("register_late") for t in script["tasks"])), "keyword_only_param": 0,
            "explicit_value_for_dependency_param": int(any("dep0" in m["kwargs"] for m in script["messages"]))}
     for t in script["tasks"]:
         if "sig" not in t:
